@@ -62,7 +62,7 @@ Theorem C02_progress_sync_partial : forall D F teq, teq_laws D teq -> funs_typed
     (forall self p, procs c !! self = Some p ->
        exists k, own_chan p k /\
          (action_of Sync D p = ARecv k \/ exists m, action_of Sync D p = ASend k m /\ is_pos_rule (m_rule m) = true)) /\
-    ((forall k, (exists self p, procs c !! self = Some p /\ own_chan p k) ->
+    ((forall k, (exists self p, procs c !! self = Some p /\ k ∈ cids_of (pr_provs p)) ->
                 exists o, obj_in c o /\ k ∈ refs o) -> procs c = ∅).
 Proof. exact progress_sync_partial. Qed.
 
@@ -78,7 +78,7 @@ Theorem C02_progress_sync_run_partial : forall teqD : tenv -> sty -> sty -> Prop
        exists k, own_chan pr k /\
          (action_of Sync (p_types p') pr = ARecv k \/
           exists m, action_of Sync (p_types p') pr = ASend k m /\ is_pos_rule (m_rule m) = true)) /\
-    ((forall k, (exists self pr, procs c !! self = Some pr /\ own_chan pr k) ->
+    ((forall k, (exists self pr, procs c !! self = Some pr /\ k ∈ cids_of (pr_provs pr)) ->
                 exists o, obj_in c o /\ k ∈ refs o) -> procs c = ∅).
 Proof. exact progress_sync_run_partial. Qed.
 
